@@ -7,6 +7,7 @@ import (
 	"fmt"
 	"log/slog"
 	"os"
+	"runtime/debug"
 	"sort"
 	"strconv"
 	"strings"
@@ -42,17 +43,45 @@ func c14sEnvInt(name string, def int) int {
 	return def
 }
 
+// Start states (prefixes applied to a fresh manager, all oracles on). They exist because the interesting trim
+// situations need 4-6 operations of set-up (connect, tag, let the grace period pass) before the first trim.
+var c14sStarts = []struct {
+	name string
+	ops  []string
+}{
+	{"empty", nil},
+	// two eligible peers of the same segment with values 0 and 10
+	{"two-eligible", []string{"Connected(A1)", "Connected(B1)", "TagPeer(B,x,10)", "Advance(10s)"}},
+	// three eligible peers with values 0, 5, 10
+	{"three-eligible", []string{"Connected(A1)", "Connected(B1)", "Connected(C1)", "TagPeer(B,x,5)", "TagPeer(C,x,10)", "Advance(10s)"}},
+	// an eligible peer C (value 10) and an early-tag (temporary) entry for A that is older than the grace period
+	{"old-early-tags", []string{"Connected(C1)", "TagPeer(C,x,10)", "TagPeer(A,x,5)", "Advance(10s)"}},
+	// A (value 5) out of its grace period, B (value 0) half-way through it
+	{"mixed-ages", []string{"Connected(A1)", "Advance(5s)", "Connected(B1)", "TagPeer(A,x,5)", "Advance(5s)"}},
+}
+
 func c14sSearches() []c14sSearch {
 	full := c14sOpsWhere(func(*c14sOpDef) bool { return true })
-	d := 4
+	// protection with several tags against both kinds of trim, on two eligible peers
+	protect := c14sOpsNamed("TrimOpenConns", "ForceTrim", "Advance(5s)", "Connected(A2)", "Disconnected(A1)", "TagPeer(A,x,10)",
+		"Protect(A,a)", "Unprotect(A,a)", "Protect(A,b)", "Unprotect(A,b)", "Protect(B,a)", "Unprotect(B,a)", "Protect(B,b)", "Unprotect(B,b)")
+	// accounting of tags and connections on the two peers that share a segment, interleaved with trims and ticks
+	account := c14sOpsNamed("Connected(A1)", "Connected(A2)", "Connected(B1)", "Disconnected(A1)", "Disconnected(A2)", "Disconnected(B1)",
+		"TrimOpenConns", "Advance(5s)", "TagPeer(A,x,5)", "TagPeer(A,x,10)", "TagPeer(A,y,5)", "UntagPeer(A,x)", "UpsertTag(A,x,-5)",
+		"Bump(A,d,+5)", "Remove(A,d)", "TagPeer(B,x,5)", "Bump(B,d,+5)")
+	dFull, dProt, dAcc := 3, 6, 5
 	if vrep.Thorough() {
-		d = 5
+		dFull, dProt, dAcc = 4, 8, 6
 	}
-	d = c14sEnvInt("VERIF_C14S_DEPTH", d)
+	dFull = c14sEnvInt("VERIF_C14S_DEPTH", dFull)
 	var out []c14sSearch
 	for _, cfg := range []c14sCfg{{1, 2}, {2, 3}} {
-		out = append(out, c14sSearch{name: "full-alphabet", cfg: cfg, ops: full, depth: d})
+		for _, st := range c14sStarts {
+			out = append(out, c14sSearch{name: "full-alphabet/" + st.name, cfg: cfg, prefix: c14sOpsNamed(st.ops...), ops: full, depth: dFull})
+		}
 	}
+	out = append(out, c14sSearch{name: "protection/two-eligible", cfg: c14sCfg{1, 2}, prefix: c14sOpsNamed(c14sStarts[1].ops...), ops: protect, depth: dProt})
+	out = append(out, c14sSearch{name: "accounting/empty", cfg: c14sCfg{1, 2}, ops: account, depth: dAcc})
 	return out
 }
 
@@ -74,6 +103,9 @@ func (s *c14sSearch) spec(t *testing.T, st *c14sStats) *seqmc.Spec[*c14sInst, c1
 
 func TestVerifC14Seq(t *testing.T) {
 	log = slog.New(slog.DiscardHandler) // the manager logs every duplicate notification at error level
+	// every execution allocates a fresh manager (256 segments) while the live heap (the frontier) is small:
+	// collect less often
+	defer debug.SetGCPercent(debug.SetGCPercent(1600))
 	if p := vrep.ReplayPath(); p != "" {
 		c14sReplay(t, p)
 		return
